@@ -248,6 +248,17 @@ class C04(Prop):
                                                         "pgd": 2, "fw": 1, "drs": 1, "tos": 1, "eps_subgradient": 1,
                                                         "inexact_prox": 1},
                                           n=rng.choice([1, 2, 2, 3]), decorations=[] if rng.random() < 0.7 else None)
+        if case == "order" and (idx // 7) % 2 == 0:
+            # the stationary-list classes pair a list of stationary points with the list of all samples: a second
+            # declared stationary point makes the position of a sample in one list differ from its position in the
+            # other, which a positional `i > j` halving (or `i == j` skip) across the two lists depends on.
+            # Structural comparison only (tagged peer), no draw from the plan's PRNG.
+            st = next((o for o in b.ops if o["op"] == "stationary" and any(
+                f["op"] == "func" and f["out"] == o.get("f") and f["cls"] in ("ConvexQGFunction", "RsiEbFunction")
+                for f in b.ops)), None)
+            if st is not None:
+                k = b.ops.index(st) + 1
+                b.ops[k:k] = [{"op": "stationary", "out": ["st2_xs", "st2_gs", "st2_fs"], "f": st["f"]}]
         info = {k: v for k, v in b.info.items() if isinstance(v, (str, int, float))}
         info["P"] = b.P
         mode = "tagged" if case in ("order", "order-resolve") else "real"
